@@ -1,4 +1,5 @@
 use crate::asn::{Charset, Range, Size};
+use crate::generate::walker::AsnDefWriter;
 use crate::model::{Definition, Model, Target};
 use crate::rust::{
     rust_module_name, rust_struct_or_enum_name, rust_variant_name, EncodingOrdering, Rust, RustType,
@@ -140,9 +141,21 @@ impl Model<Protobuf> {
             Rust::Struct {
                 fields,
                 tag: _,
-                extension_after: _,
-                ordering: _,
+                extension_after,
+                ordering,
             } => {
+                // the field numbers follow the order in which the fields are written
+                let sorted;
+                let fields = match ordering {
+                    EncodingOrdering::Keep => &fields[..],
+                    EncodingOrdering::Sort => {
+                        sorted = AsnDefWriter::sort_fields_canonically(
+                            &AsnDefWriter::assign_implicit_tags(fields),
+                            *extension_after,
+                        );
+                        &sorted[..]
+                    }
+                };
                 let mut proto_fields = Vec::with_capacity(fields.len());
                 for field in fields.iter() {
                     proto_fields.push((
